@@ -1,20 +1,26 @@
 // C10: run a real AspifTextInput over the case's bytes with a Recorder attached.
 // Case: len b1..bn.  Observation: status (1 accepted, 0 parse error), error line (0 if none), the calls delivered.
+// Every other case (reuse::primed, a hash of the case) reads the text with an AspifTextInput OBJECT that has read "#incremental.\n" before
+// (the primer's calls are discarded). See reuse.h.
 #include "common.h"
 #include "rec.h"
+#include "reuse.h"
 #include <potassco/aspif_text.h>
 static unsigned g_line = 0;
 static int onError(int line, const char*) { g_line = (unsigned)line; return 1; }
 int main() {
 	Case c; Obs o;
 	while (readCase(c)) {
+		const bool primed = reuse::primed(c);
 		size_t len = (size_t)c.next();
 		std::string in = c.bytes(len);
 		std::istringstream is(in);
+		std::istringstream primer(reuse::TEXT_PRIMER);
 		Obs calls; Recorder rec(calls);
 		int status = 1; g_line = 0;
 		try {
 			Potassco::AspifTextInput reader(&rec);
+			if (primed) { reuse::prime(reader, primer); calls.s.clear(); }
 			if (Potassco::readProgram(is, reader, &onError) != 0) { status = 0; }
 		}
 		catch (const std::exception&) { status = 2; }
